@@ -252,6 +252,16 @@ func parseSessOps(s string) ([]sessOp, bool) {
 			ops = append(ops, sessOp{})
 			continue
 		}
+		if o == "A" {
+			// again: the message of the previous Send, the very same value (a message is published any number of times)
+			for j := len(ops) - 1; j >= 0; j-- {
+				if ops[j].msg != nil {
+					ops = append(ops, sessOp{msg: ops[j].msg})
+					break
+				}
+			}
+			continue
+		}
 		if !strings.HasPrefix(o, "S:") {
 			return nil, false
 		}
@@ -294,7 +304,13 @@ func runSessOps(rec *recorder, c sse.MessageWriter, ops []sessOp) ([]string, err
 	for _, o := range ops {
 		var err error
 		if o.msg != nil {
+			before := o.msg.String() + "|" + fmt.Sprint(int64(o.msg.Retry))
 			err = c.Send(o.msg)
+			if after := o.msg.String() + "|" + fmt.Sprint(int64(o.msg.Retry)); after != before {
+				// sending a message must leave it as it was, whatever became of the write
+				entries = append(entries, "MESSAGE-MODIFIED-BY-SEND")
+				continue
+			}
 		} else {
 			err = c.Flush()
 		}
